@@ -11,6 +11,7 @@ CONSTANTS
   SecondStopHangs = FALSE
   AwaitsLastWorkerOnly = FALSE
   WakeAcceptFirst = FALSE
+  MidPollIgnoresStop = FALSE
 SPECIFICATION Spec
 VIEW View
 INVARIANTS NEG_ForcedNeverCompletesWithBusy
